@@ -20,6 +20,7 @@ TDocOf(k) == CASE k \in {"k1", "k2"} -> "A" [] k \in {"k3", "k4"} -> "B" [] k \i
 
 VARIABLES l, mode
 tvars == <<vars, l, mode>>
+tvars_but_l == <<vars, mode>>
 
 Ev(a) == l <= TraceLen /\ Trace[l].a = a /\ l' = l + 1
 
